@@ -107,6 +107,96 @@ func accept(m midi.Message) (acc [nKinds]bool, ch, a, b uint8, rel int16, abs ui
 // non-nil out-parameters ("only arguments that are not nil are parsed and
 // filled"): it must accept, and fill exactly the non-nil ones.
 func nilArgs(m midi.Message, kind, wCh, wA, wB int) string {
+	switch kind {
+	case kBend:
+		// wA carries the relative value here
+		for mask := 0; mask < 8; mask++ {
+			var ch uint8 = 0xEE
+			var rel int16 = -7777
+			var abs uint16 = 0xEEEE
+			var pc *uint8
+			var pr *int16
+			var pa *uint16
+			if mask&1 != 0 {
+				pc = &ch
+			}
+			if mask&2 != 0 {
+				pr = &rel
+			}
+			if mask&4 != 0 {
+				pa = &abs
+			}
+			if !m.GetPitchBend(pc, pr, pa) {
+				return fmt.Sprintf("accessor rejects its own message when called with nil-mask %03b", mask)
+			}
+			if (pc != nil && int(ch) != wCh) || (pr != nil && int(rel) != wA) || (pa != nil && int(abs) != wA+8192) {
+				return fmt.Sprintf("with nil-mask %03b the accessor left a requested value unfilled or wrong: ch=%d rel=%d abs=%d, want %d %d %d", mask, ch, rel, abs, wCh, wA, wA+8192)
+			}
+		}
+		// the derived views, same rule
+		var c2 uint8 = 0xEE
+		if !m.GetChannel(&c2) || int(c2) != wCh || !m.GetChannel(nil) {
+			return fmt.Sprintf("GetChannel gives %d (want %d) or refuses a nil destination", c2, wCh)
+		}
+		return ""
+	case kNoteOn, kNoteOff, kPoly, kCC, kProg, kAfter:
+		var c2 uint8 = 0xEE
+		if !m.GetChannel(&c2) || int(c2) != wCh || !m.GetChannel(nil) {
+			return fmt.Sprintf("GetChannel gives %d (want %d) or refuses a nil destination", c2, wCh)
+		}
+		if kind == kNoteOn && wB > 0 {
+			for mask := 0; mask < 8; mask++ {
+				var ch, k, v uint8 = 0xEE, 0xEE, 0xEE
+				var pc, pk, pv *uint8
+				if mask&1 != 0 {
+					pc = &ch
+				}
+				if mask&2 != 0 {
+					pk = &k
+				}
+				if mask&4 != 0 {
+					pv = &v
+				}
+				if !m.GetNoteStart(pc, pk, pv) || (pc != nil && int(ch) != wCh) || (pk != nil && int(k) != wA) || (pv != nil && int(v) != wB) {
+					return fmt.Sprintf("GetNoteStart with nil-mask %03b: ch=%d key=%d vel=%d, want %d %d %d", mask, ch, k, v, wCh, wA, wB)
+				}
+			}
+		}
+		if kind == kNoteOff || (kind == kNoteOn && wB == 0) {
+			for mask := 0; mask < 4; mask++ {
+				var ch, k uint8 = 0xEE, 0xEE
+				var pc, pk *uint8
+				if mask&1 != 0 {
+					pc = &ch
+				}
+				if mask&2 != 0 {
+					pk = &k
+				}
+				if !m.GetNoteEnd(pc, pk) || (pc != nil && int(ch) != wCh) || (pk != nil && int(k) != wA) {
+					return fmt.Sprintf("GetNoteEnd with nil-mask %02b: ch=%d key=%d, want %d %d", mask, ch, k, wCh, wA)
+				}
+			}
+		}
+	case kSPP:
+		// wA carries the pointer here
+		var v uint16 = 0xEEEE
+		if !m.GetSPP(nil) || !m.GetSPP(&v) || int(v) != wA {
+			return fmt.Sprintf("GetSPP gives %d (want %d) or refuses a nil destination", v, wA)
+		}
+		return ""
+	case kMTC:
+		var v uint8 = 0xEE
+		if !m.GetMTC(nil) || !m.GetMTC(&v) || int(v) != wA {
+			return fmt.Sprintf("GetMTC gives %d (want %d) or refuses a nil destination", v, wA)
+		}
+		return ""
+	case kSong:
+		var v uint8 = 0xEE
+		if !m.GetSongSelect(nil) || !m.GetSongSelect(&v) || int(v) != wA {
+			return fmt.Sprintf("GetSongSelect gives %d (want %d) or refuses a nil destination", v, wA)
+		}
+		return ""
+	}
 	for mask := 0; mask < 8; mask++ {
 		var ch, a, b uint8 = 0xEE, 0xEE, 0xEE
 		var pc, pa, pb *uint8
@@ -330,7 +420,14 @@ func judge(lp *loop, kind int, ctor string, args []int, m midi.Message, want []b
 		}
 	}
 	if want != nil {
-		if w := nilArgs(m, kind, wCh, wA, wB); w != "" {
+		nA := wA
+		switch kind {
+		case kBend:
+			nA = wRel
+		case kSPP:
+			nA = wSPP
+		}
+		if w := nilArgs(m, kind, wCh, nA, wB); w != "" {
 			report("accessor:"+ctor+":nil-arguments", ctor, args, m, w)
 			return
 		}
